@@ -42,7 +42,7 @@ def gen_case(rng, big=False):
     nm = rng.choice((1, 1, 2, 2, 3))
     markets = []
     for i in range(nm):
-        kind = rng.choice(("minutely", "minutely", "hourly", "gaps", "late", "short")) if i else rng.choice(("minutely", "minutely", "minutely", "gaps", "hourly"))
+        kind = rng.choice(("minutely", "minutely", "hourly", "gaps", "late", "short", "holes")) if i else rng.choice(("minutely", "minutely", "minutely", "gaps", "hourly", "holes"))
         if kind == "minutely":
             times = list(base)
         elif kind == "hourly":
@@ -52,6 +52,19 @@ def gen_case(rng, big=False):
                 times = [first]
         elif kind == "gaps":
             times = [t for t in base if rng.random() < 0.8] or [base[0]]
+        elif kind == "holes":
+            # runs of missing minutes, up to three bars long: on a coarse interval whole bars have no row at all
+            times, t = [], 0
+            while t < len(base):
+                run = rng.randint(1, 4 * interval)
+                if rng.random() < 0.45 and times:
+                    t += run                              # a hole
+                else:
+                    times += base[t:t + run]
+                    t += run
+            times = times or [base[0]]
+            if base[-1] not in times and rng.random() < 0.7:
+                times.append(base[-1])
         elif kind == "late":
             k = rng.randint(0, max(0, len(base) - 1))
             times = base[k:]
@@ -59,6 +72,8 @@ def gen_case(rng, big=False):
             k = rng.randint(1, len(base))
             times = base[:k]
         mk = {"kind": kind, "times": times, "open": rng.random() < 0.4}
+        if kind in ("holes", "gaps", "hourly") and rng.random() < (0.7 if kind == "holes" else 0.3):
+            mk["sparse"] = True        # the market's own _resample drops the empty bins (the option book's does): closed on a bar that falls into a hole
         if kind == "hourly" and rng.random() < 0.5:
             # an option book: several rows per timestamp; sometimes more rows than the longest market has timestamps
             mk["kind"], mk["rows"] = "book", rng.choice((2, 3, 7, max(2, n_raw // max(1, len(times)) + 1), 80))
@@ -142,7 +157,7 @@ def run_impl(case):
     from demeter._typing import DemeterError
     rec = cl.Recorder()
     rec.initialized = False
-    a, ms, rec = cl.build([(f"m{i}", m["times"], m["open"], m["kind"], m.get("rows", 1)) for i, m in enumerate(case["markets"])], case["prices"], case["istr"], rec)
+    a, ms, rec = cl.build([(f"m{i}", m["times"], m["open"], m["kind"], m.get("rows", 1), m.get("sparse", False)) for i, m in enumerate(case["markets"])], case["prices"], case["istr"], rec)
     sc = case["script"]
     t_before = {r: o for r, o in sc["before"]}
     t_on = {r: o for r, o in sc["on"]}
@@ -288,6 +303,17 @@ def expected_index(times, step, resample):
     return list(range(lo, hi + 1, step))
 
 
+def market_index(m, step, resample):
+    """the index a market's own frame has during the run: every bin between its first and last row, or (a market whose _resample drops
+    the empty bins, like the option book's) only the bins that hold a row"""
+    idx = expected_index(m["times"], step, resample)
+    if resample and m.get("sparse"):
+        ts = sorted(m["times"])
+        import bisect
+        idx = [b for b in idx if (lambda k: k < len(ts) and ts[k] < b + step)(bisect.bisect_left(ts, b))]
+    return idx
+
+
 def first_in_bin(times, ts, step, resample):
     if not resample:
         return ts if ts in set(times) else None
@@ -368,7 +394,7 @@ def oracle(ctx, case, obs, rep):
     openf = {}
     for e in ev:
         if e[0] == "set":
-            idx = expected_index(case["markets"][e[2]]["times"], step, resample)
+            idx = market_index(case["markets"][e[2]], step, resample)
             if e[4] != (e[1] in set(idx)):
                 V("Market.set_market_status:is_open", f"market {e[2]} is_open={e[4]} at {e[1]}")
             if e[4] and e[5] != first_in_bin(case["markets"][e[2]]["times"], e[1], step, resample):
@@ -389,7 +415,7 @@ def model_request(case):
         return [str(x) for x in l]
     specs = [{k: ([[str(a), str(b)] for a, b in v] if k == "rs" else [str(x) for x in v] if isinstance(v, list)
                   else str(v) if isinstance(v, int) and not isinstance(v, bool) else v) for k, v in sp.items()} for sp in case["specs"]]
-    return {"fn": "run", "markets": [{"idx": ints([t for t in m["times"] for _ in range(m.get("rows", 1))]), "open": m["open"]} for m in case["markets"]],
+    return {"fn": "run", "markets": [{"idx": ints([t for t in m["times"] for _ in range(m.get("rows", 1))]), "open": m["open"], "sparse": bool(m.get("sparse", False))} for m in case["markets"]],
             "prices": ints(case["prices"]),
             "delta": str(60 * case["interval"]), "resample": resampled(case["istr"]), "specs": specs, "script": case["script"]}
 
@@ -398,7 +424,7 @@ def check_case(ctx: Ctx, case, reqs=None):
     obs = run_impl(case)
     rep = case
     nm = len(case["markets"])
-    kinds = "+".join(sorted(m["kind"] for m in case["markets"]))
+    kinds = "+".join(sorted(m["kind"] + ("~sparse" if m.get("sparse") else "") for m in case["markets"]))
     ev = obs["events"]
     if obs["err"] is None:
         oracle(ctx, case, obs, rep)
